@@ -4,6 +4,7 @@ mod cupsign;
 mod docgen;
 mod exec;
 mod hist;
+mod logsink;
 mod explore;
 mod props;
 mod runner;
